@@ -279,7 +279,7 @@ func (s *Session) GetActiveStreamCount() int {
 // OpenStream is used to create a new stream
 func (s *Session) OpenStream() (*Stream, error) {
 	if s.IsClosed() {
-		return nil, s.shutdownErr
+		return nil, s.closedErr()
 	}
 	if !s.IsHealthy() {
 		return nil, ErrSessionUnhealthy
@@ -291,6 +291,11 @@ func (s *Session) OpenStream() (*Stream, error) {
 	// Register the stream
 	stream := newStream(s, id)
 	s.streamLock.Lock()
+	if s.streams == nil {
+		// Close has finished since the check above: its lambda took the table away
+		s.streamLock.Unlock()
+		return nil, s.closedErr()
+	}
 	if _, ok := s.streams[id]; ok {
 		s.streamLock.Unlock()
 		return nil, ErrStreamsExhausted
@@ -301,6 +306,18 @@ func (s *Session) OpenStream() (*Stream, error) {
 
 	// FIXME(zjb): we can't send anything to peer, so peer don't know we open an new stream
 	return stream, nil
+}
+
+// closedErr returns the reason why the session is closed. Close raises the shutdown
+// flag before it records the reason, so a caller that has only seen the flag must not
+// read shutdownErr directly (it may still be nil).
+func (s *Session) closedErr() error {
+	s.shutdownLock.Lock()
+	defer s.shutdownLock.Unlock()
+	if s.shutdownErr == nil {
+		return ErrSessionShutdown
+	}
+	return s.shutdownErr
 }
 
 // AcceptStream is used to block until the next available stream
